@@ -11,6 +11,70 @@ DEFAULT_MAPS = {'truanm': 'map/any.anmm', 'trustd': 'map/any.stdm', 'trumsg': 'm
 
 CLI_TIMEOUT = [30]
 
+GEN_ANM_MAP = """!anmmap
+!ins_signatures
+900 S
+901 ot
+4 ot
+5 Sot
+28 SSot
+30 SSot
+32 SSot
+34 SSot
+36 SSot
+38 SSot
+64 S(imm)
+!ins_intrinsics
+4 Jmp()
+5 CountJmp()
+28 CondJmp(op="=="; type="int")
+30 CondJmp(op="!="; type="int")
+32 CondJmp(op="<"; type="int")
+34 CondJmp(op="<="; type="int")
+36 CondJmp(op=">"; type="int")
+38 CondJmp(op=">="; type="int")
+64 Interrupt()
+"""
+GEN_ECL_MAP = """!eclmap
+!ins_signatures
+900 S
+901 to
+2 to
+3 toS
+28 SSto
+30 SSto
+32 SSto
+34 SSto
+36 SSto
+38 SSto
+!ins_intrinsics
+2 Jmp()
+3 CountJmp(op=">")
+28 CondJmp(op="=="; type="int")
+30 CondJmp(op="!="; type="int")
+32 CondJmp(op="<"; type="int")
+34 CondJmp(op="<="; type="int")
+36 CondJmp(op=">"; type="int")
+38 CondJmp(op=">="; type="int")
+"""
+GEN_ANM_HEAD = """
+entry {
+    path: "subdir/file.png",
+    has_data: false,
+    img_width: 512,
+    img_height: 512,
+    img_format: 3,
+    offset_x: 0,
+    offset_y: 0,
+    colorkey: 0,
+    memory_priority: 0,
+    low_res_scale: false,
+    sprites: {
+        sprite0: {id: 0, x: 0.0, y: 0.0, w: 512.0, h: 480.0},
+    },
+}
+"""
+
 def cli(args, cwd, timeout=None):
     return sh([harness_bin('truth-cli')] + args, cwd=cwd, timeout=timeout or CLI_TIMEOUT[0])
 
@@ -64,18 +128,18 @@ def main(argv):
     props_v = os.path.join(COQ, 'theories', 'Props', 'C01.v')
     proofs_ok = True
     if os.path.exists(props_v):
-        proofs_ok, h_ok, unrec = standard_proof_steps(v, PROP, ['argcodec', 'abiletters', 'diffflags', 'timelabels'], ['theories/Props/C01.vo'], ['truth-cli'])
+        proofs_ok, h_ok, unrec = standard_proof_steps(v, PROP, ['argcodec', 'abiletters', 'diffflags', 'timelabels'], ['theories/Props/C01.vo'], ['truth-cli', 'c07'])
         if unrec and not v.violations:
             v.violation('translators no longer recognise a table used by the C01 composition: %s' % unrec[:3], {'class': 'c01-tie1', 'broken': unrec}, no_failing_input=True)
     else:
-        h_ok, hout = cargo_build(['truth-cli'])
+        h_ok, hout = cargo_build(['truth-cli', 'c07'])
         if not h_ok: v.obligation('harness build against /repo working tree', False, hout[-1500:])
     work = os.path.join(WORK, 'C01')
     shutil.rmtree(work, ignore_errors=True)
     os.makedirs(work)
 
     jobs = []
-    stats = {'sources': 0, 'compiled': 0, 'bundled': 0}
+    stats = {'sources': 0, 'compiled': 0, 'bundled': 0, 'generated': 0, 'generated_compiled': 0}
     if h_ok and not replay:
         # (a) bundled binaries
         bundled = sorted(glob.glob(os.path.join(REPO, 'tests/integration/bits-2-bits/*')))
@@ -116,6 +180,39 @@ def main(argv):
             for s in subsets:
                 w = rng.choice([1, 8, 20, 40, 80, 100, 200]) if tier == 'quick' else rng.randint(1, 200)
                 jobs.append({'tool': c['cmd'], 'game': c['game'], 'binary': binary, 'mapfiles': maps, 'opts': s, 'width': w, 'tag': 'test-source:' + c['name']})
+        # (c) generated control-flow programs: the structured-program generator of the C07 harness (loops, if/else
+        #     chains, breaks, near-miss shapes, time labels, interrupts) for ANM th12 and ECL th07, compiled through
+        #     the CLI with the small mapfiles below (the entries of the core mapfiles those programs use)
+        ngen = 60 if tier == 'quick' else 1500
+        rc, gout = sh([harness_bin('c07'), 'gen', str(ngen)], timeout=1200, env={'VERIF_SEED': str(seed)})
+        gen_src = []
+        seen_src = set()
+        for l in gout.splitlines():
+            parts = l.split('\t')
+            if len(parts) >= 3 and '|' in parts[2] and parts[0] != 'STATS':
+                host, body = parts[2].split('|', 1)
+                if host in ('Anm', 'Ecl') and body not in seen_src:
+                    seen_src.add(body); gen_src.append((host, body.replace('\\n', '\n')))
+        stats['generated'] = len(gen_src)
+        def compile_gen(ih):
+            i, (host, body) = ih
+            d = os.path.join(work, 'gen%d' % i)
+            os.makedirs(d, exist_ok=True)
+            mp = os.path.join(d, 'm.map'); open(mp, 'w').write(GEN_ANM_MAP if host == 'Anm' else GEN_ECL_MAP)
+            src = os.path.join(d, 'in.spec')
+            open(src, 'w').write((GEN_ANM_HEAD + '\nscript script0 {\n' + body + '}\n') if host == 'Anm' else ('script timeline0 {}\n\nvoid sub0() {\n' + body + '}\n'))
+            tool, game = ('truanm', '12') if host == 'Anm' else ('truecl', '07')
+            out = os.path.join(d, 'in.bin')
+            rc, err = cli([tool, 'compile', '-g', game, src, '-o', out, '-m', mp], cwd=REPO)
+            if rc != 0 or not os.path.exists(out): return None
+            return (tool, game, out, mp, i)
+        with ThreadPoolExecutor(16) as ex:
+            gen_bins = [r for r in ex.map(compile_gen, enumerate(gen_src)) if r]
+        stats['generated_compiled'] = len(gen_bins)
+        for tool, game, binary, mp, i in gen_bins:
+            for s_ in [[]] + rng.sample(ALL_SUBSETS[1:], 1 if tier == 'quick' else 4):
+                w = rng.choice([1, 20, 40, 80, 100, 200]) if tier == 'quick' else rng.randint(1, 200)
+                jobs.append({'tool': tool, 'game': game, 'binary': binary, 'mapfiles': [DEFAULT_MAPS[tool], mp], 'opts': s_, 'width': w, 'tag': 'generated:%s%d' % (tool, i)})
     if replay:
         r = json.load(open(replay))
         j = r['job']
@@ -160,7 +257,7 @@ def main(argv):
     v.coverage.update({
         'evaluations': len(results),
         'distinct_nontrivial': distinct,
-        'rule': 'one evaluation = decompile (option subset, line width) + recompile (original as image source for ANM) + byte comparison through the CLI built from the working tree; inputs: bundled binaries and every compilable source harvested from the repository tests (tests/integration/*.rs source_test! bodies x Format templates); distinct = distinct (binary, options, width) that round-tripped; runs where decompile printed a warning are excluded as the property allows',
+        'rule': 'one evaluation = decompile (option subset, line width) + recompile (original as image source for ANM) + byte comparison through the CLI built from the working tree; inputs: bundled binaries, every compilable source harvested from the repository tests (tests/integration/*.rs source_test! bodies x Format templates), and generated control-flow programs (the C07 harness generator: loops, if/else chains, breaks, near-miss shapes, time labels; ANM th12 and ECL th07); distinct = distinct (binary, options, width) that round-tripped; runs where decompile printed a warning are excluded as the property allows',
         'status_histogram': hist, 'corpus': stats,
         'traces_validated_against_impl': len(results),
         'samples': [r['job'] for r in results[:1] + results[-2:]],
